@@ -168,13 +168,13 @@ func (tr *Tracer) storeCell(st *state, addr, val *Sym) {
 		}
 		// may-alias: same field through a different base that is not provably distinct
 		if addr.Kind == KFieldAddr && c.addr.Kind == KFieldAddr && sameField(addr.Field, c.addr.Field) && mayAlias(addr.Args[0], c.addr.Args[0]) {
-			st.store[ck] = &cell{addr: c.addr, val: st.fresh("alias", nil, nil)}
+			st.store[ck] = &cell{addr: c.addr, val: st.later(c.addr, symValType(c.val))}
 		}
 		if addr.Kind == KIndexAddr && c.addr.Kind == KIndexAddr && mayAlias(addr.Args[0], c.addr.Args[0]) && !distinctConst(addr.Args[1], c.addr.Args[1]) {
-			st.store[ck] = &cell{addr: c.addr, val: st.fresh("alias", nil, nil)}
+			st.store[ck] = &cell{addr: c.addr, val: st.later(c.addr, symValType(c.val))}
 		}
 		if (addr.Kind == KParam || addr.Kind == KInit || addr.Kind == KFresh) && (c.addr.Kind == KParam || c.addr.Kind == KInit || c.addr.Kind == KFresh) && types.Identical(typeOf(addr), typeOf(c.addr)) {
-			st.store[ck] = &cell{addr: c.addr, val: st.fresh("alias", nil, nil)}
+			st.store[ck] = &cell{addr: c.addr, val: st.later(c.addr, symValType(c.val))}
 		}
 	}
 	st.store[k] = &cell{addr: addr, val: val}
@@ -247,7 +247,7 @@ func (tr *Tracer) havoc(st *state, why string) {
 		if tr.keepOnHavoc(st, c.addr) {
 			continue
 		}
-		st.store[k] = &cell{addr: c.addr, val: st.fresh(why, symValType(c.val), nil)}
+		st.store[k] = &cell{addr: c.addr, val: st.later(c.addr, symValType(c.val))}
 	}
 }
 
